@@ -134,7 +134,10 @@ fn build(world: &Arc<World>, c: usize, spec: CallSpec) -> Option<(Fut, serde_jso
                     match w.topics.get_topic(&tname) {
                         Err(_) => "NOT_FOUND".to_string(),
                         Ok(t) => {
-                            let info = SubscriptionInfo::new(sname, Duration::from_secs(ack.max(10) as u64), None);
+                            let push_config = push
+                                .filter(|p| !p.is_empty())
+                                .map(|p| deltio::subscriptions::PushConfig::new(p, None, None));
+                            let info = SubscriptionInfo::new(sname, Duration::from_secs(ack.max(10) as u64), push_config);
                             match w.subs.create_subscription(info, t).await {
                                 Ok(_) => "OK".to_string(),
                                 Err(e) => format!("ERR:{:?}", e),
